@@ -162,6 +162,34 @@ def main():
         if r:
             print(json.dumps({"reproduced": True, "detail": r, "tried": tried, "input": dict(n_particles=4096, n_total=40000, vectorize=True, clustering=False)}))
             return
+        # a small ensemble run for hundreds of iterations (more than 256 stored iterations)
+        tried += 1
+        s = Sampler(pt, ll, n_dim=2, n_particles=8, random_state=12, clustering=False, output_dir=tmp)
+        s.run(n_total=2100, progress=False)
+        lw, lz = mis(s)
+        x, wts, logl = s.posterior(resample=False, trim_importance_weights=False)[:3]
+        if abs(s.evidence()[0] - lz) > 1e-8 * (1 + abs(lz)) or len(wts) != len(lw) or not np.allclose(wts, np.exp(lw), rtol=1e-7, atol=1e-15):
+            print(json.dumps({"reproduced": True, "tried": tried, "detail": f"8 particles run to n_total=2100 ({s.state.get_history_length()} stored iterations): evidence() = {s.evidence()[0]!r}, the "
+                              f"mixture-importance-sampling evidence recomputed from the stored history is {lz!r}; posterior weights deviate by up to "
+                              f"{float(np.max(np.abs(wts - np.exp(lw)) / np.maximum(np.exp(lw), 1e-300))) if len(wts) == len(lw) else float('nan'):.3g} (relative)",
+                              "input": dict(n_particles=8, n_total=2100)}))
+            return
+        # a finished run extended by sample() calls, saved, and resumed with a target that is already met (no iteration to execute):
+        # evidence() still equals the recomputation from the stored history
+        tried += 1
+        s = Sampler(pt, ll, n_dim=2, n_particles=32, random_state=14, output_dir=os.path.join(tmp, "z"))
+        s.run(n_total=64, progress=False)
+        for _ in range(4):
+            s.sample()
+        pz = os.path.join(tmp, "z", "extended.state")
+        s.save_state(pz)
+        s2 = Sampler(pt, ll, n_dim=2, n_particles=32, random_state=14, output_dir=os.path.join(tmp, "z2"))
+        s2.run(n_total=64, progress=False, resume_state_path=pz)
+        lw, lz = mis(s2)
+        if abs(s2.evidence()[0] - lz) > 1e-8 * (1 + abs(lz)):
+            print(json.dumps({"reproduced": True, "tried": tried, "detail": f"run(n_total=64) resumed from a state saved after run() + 4 x sample() (target already met): evidence() = "
+                              f"{s2.evidence()[0]!r}, recomputed from the stored history {lz!r}", "input": {"probe": "resume-without-iterations"}}))
+            return
         # resume with a larger target
         d = os.path.join(tmp, "r")
         s = Sampler(pt, ll, n_dim=2, n_particles=32, random_state=4, output_dir=d)
